@@ -300,8 +300,10 @@ def r2_sequence(program, folder, rep):
         okn = False
         if num is not None and num[0] == "index":
             # the running index of the pieces themselves
+            from ..terms import chunk_offsets
             okn = chunk_index(plain(num), B, tconst) is not None and \
-                piece[0] == "item" and piece[2][1] == ("elem", num[1])
+                piece[0] == "item" and plain(piece[2][1]) == (
+                    "elem", chunk_offsets(plain(num)))
         elif num is not None and num[0] == "mu":
             alts = one_level(num)
             okn = ("const", 0) in alts and len(alts) == 2 and any(
@@ -487,6 +489,14 @@ def r4_packet(program, folder, rep):
             data = ("param", ps[5]) if len(ps) > 5 else None
             okc = WORD is not None and data is not None and \
                 chunked(WORD, data, 4, const)
+    if elem is not None and not okw:
+        # struct.iter_unpack('<I', data) walks the consecutive words in order
+        m = match(("call", PACK, (V("f"), ("comp", ("elem", ("call", (
+            "attr", ("global", "struct"), "iter_unpack"),
+            (V("g"), V("w")), ())), 0)), ()), plain(elem))
+        if m is not None:
+            okw = const(m["f"]) == "!I" and const(m["g"]) == "<I"
+            okc = len(ps) > 5 and m["w"] == ("param", ps[5])
     if elem is None:
         # the bulk form: all words unpacked at once and packed back
         pb = plain(body)
